@@ -75,6 +75,11 @@ class NumericalSolver:
         else: 
             return False
 
+def _same_dimensions(left, right):
+    # Quantity.to() also converts between inverse dimensions (s <-> 1/s); sums need equal ones
+    if not left.baseunits.dimensions == right.baseunits.dimensions:
+        raise Exception("Unsupported conversion between units:", str(right.baseunits), str(left.baseunits))
+
 class CustomOperatorAdd(OperatorAdd):
     symbol: str = ' + '
     def operate_unary(self, tokens):
@@ -96,6 +101,7 @@ class CustomOperatorAdd(OperatorAdd):
             tokens.put_right(right)
     def operate_binary(self, tokens):
         left, right = tokens.get_left(), tokens.get_right()
+        _same_dimensions(left, right)
         if not left.baseunits.nodim:
             right.to(left.baseunits)
         tokens.put_left(left + right)
@@ -121,6 +127,7 @@ class CustomOperatorSub(OperatorSub):
             tokens.put_right(right)
     def operate_binary(self, tokens):
         left, right = tokens.get_left(), tokens.get_right()
+        _same_dimensions(left, right)
         if not left.baseunits.nodim:
             right.to(left.baseunits)
         tokens.put_left(left - right)
